@@ -128,7 +128,7 @@ class C18(Config):
         "axioms: none",
         "vlib/props/c18.py extractors (constants of scheduling.rs / zip318.rs, shape checks of next_step, next_broadcastable, is_terminal, advance_migration)",
         "harness/wallet/src/bin/c18.rs: state printers, scripted PoolMigrationWrite store (oracle tables), scripted RNG, SQLite round-trip comparison by Rust PartialEq",
-        "the model omits PCZT bytes, lock owners, nullifier caches and the advisory outlook (Advance::next)",
+        "the state-machine model (Model.v) omits PCZT bytes, lock owners and nullifier caches (opaque payloads no decision reads); the store model (StoreFull.v) carries them as tokens",
         "coq/C18/Store.v and StoreFull.v: row-level model of store.rs; tied to the code by regenerated table names / column lists (fail closed), by full-row dumps of every table compared with the model's save output at each persisted step, and by the load-back verdicts (SQLite and the in-memory backend)",
     ]
     assumptions = [
@@ -139,7 +139,7 @@ class C18(Config):
     ]
     partial_clauses = [
         "byte strings in the store model (PCZT, lock owner, nullifier) are opaque (length, FNV-1a-64) tokens; the model's save output is compared with plain SELECT dumps of ALL normalised tables at every persisted step",
-        "the outlook (Advance::next / upcoming_step) and sync_wakeup_schedule (C17) are not modelled",
+        "sync_wakeup_schedule (C17's) is not modelled; the outlook (Advance::next) is modelled and compared on every advance call, with one theorem about its per-row floor",
     ]
 
     def harness_args(self, tier, seed, search=False):
